@@ -524,6 +524,23 @@ func doReplay[C any](s Spec[C], path string) int {
 }
 
 func writeEvidence[C any](s Spec[C], tier string, seed int64, st *Stats, samples []json.RawMessage, exhaustive bool, notes []string, wall float64, nViol, bsec, nw int) {
+	// keep the evidence file readable: the 40 most frequent outcome classes, samples cut to 2 kB each
+	outcomes := st.Outcomes
+	if len(outcomes) > 40 {
+		type kv struct {
+			k string
+			v int64
+		}
+		var all []kv
+		for k, v := range outcomes {
+			all = append(all, kv{k, v})
+		}
+		sort.Slice(all, func(i, j int) bool { return all[i].v > all[j].v || (all[i].v == all[j].v && all[i].k < all[j].k) })
+		outcomes = map[string]int64{}
+		for _, e := range all[:40] {
+			outcomes[e.k] = e.v
+		}
+	}
 	cov := map[string]any{
 		"evaluations":         st.Evals,
 		"cases":               st.Cases,
@@ -533,7 +550,7 @@ func writeEvidence[C any](s Spec[C], tier string, seed int64, st *Stats, samples
 		"counters":            st.C,
 		"maxima":              st.M,
 		"distinct_outcomes":   len(st.Outcomes),
-		"outcomes":            st.Outcomes,
+		"outcomes":            outcomes,
 		"budget_s":            bsec,
 		"workers":             nw,
 	}
@@ -572,7 +589,11 @@ func writeEvidence[C any](s Spec[C], tier string, seed int64, st *Stats, samples
 		}
 	}
 	for _, c := range ss {
-		all = append(all, map[string]any{"case": c})
+		if len(c) > 2000 {
+			all = append(all, map[string]any{"case_json_prefix": string(c[:2000]) + "…"})
+		} else {
+			all = append(all, map[string]any{"case": c})
+		}
 	}
 	cov["samples"] = all
 	ev := map[string]any{
